@@ -3,7 +3,6 @@ package hsim
 // C13 Requests larger than MaxRequestLength are never processed.
 
 import (
-	"strings"
 	"bufio"
 	"bytes"
 	"context"
@@ -12,6 +11,7 @@ import (
 	"io"
 	"net/http"
 	"strconv"
+	"strings"
 	"time"
 
 	"github.com/hprose/hprose-golang/v3/rpc/core"
